@@ -17,6 +17,7 @@ func init() {
 		Explanation: `R06.1 every WoundKind the validator side can emit has a case in the healer's switch; ` +
 			`R06.2 in Validate's directory and symlink passes an error from os.Lstat/os.Readlink is returned only after a classification that tests both not-exist and not-a-directory (ENOTDIR arises when a parent was replaced by a file), otherwise it becomes a wound; ` +
 			`R06.3 repair actions: DIR - every success path consults os.Lstat, returns early only for a real directory, removes a non-directory before MkdirAll and otherwise ends in MkdirAll; SYMLINK - MkdirAll(parent), removal of whatever exists, then os.Symlink(entry.Dest, path) on every success path; FILE - queued once per file and marked whenever queued; R06.5 no function of pwr / pwr/bowl that changes a tree examines a path with os.Stat (which follows links): the kind of what is at an entry's path is decided with Lstat; ` +
+			`R06.6 a queued file is copied whole from the archive into the target for the same index; R16.7 (shared) no wound is sent before the consumer exists; R06.7 the verdict about a directory reaches what lies below it: each way of finding a directory of the wrong kind writes a record, and every examination of an entry of the build (Lstat, Readlink, opening through the pool - in the three passes) is dominated by a branch whose condition reads that record (directly, through a closure, or through a function-typed parameter resolved at its call sites); ` +
 			`(R06.4 of the design, queue capacity, was dropped as not necessary.) ` +
 			`NOT decided: that healed content equals the signed content, validator/healer interleavings, behaviour under cancellation.`,
 		Assumptions: []string{"the healer's repair switch is the function literal in ArchiveHealer.Do that switches on wound.Kind"},
